@@ -16,25 +16,25 @@ type MPool struct {
 	Health                                                 *big.Int // nil when unset
 }
 type MTP struct {
-	Addr, ID                                                  int64
-	CollAsset, CustAsset                                      int64
+	Addr, ID                                                   int64
+	CollAsset, CustAsset                                       int64
 	CollAmt, Liab, IPaidColl, IPaidCust, IUnpaid, CustAmt, Lev *big.Int
-	Health                                                    *big.Int
+	Health                                                     *big.Int
 }
 type MParams struct {
-	LevMax, Safety                   *big.Int
-	EpochLen                         int64
-	Incr                             bool
-	IncrPct                          *big.Int
-	IncrFund                         int64
-	FcPct                            *big.Int
-	FcFund                           int64
-	Pools, Closed                    []int64
-	Whitelisting                     bool
-	MaxOpen                          uint64
-	RowanColl                        bool
-	RateMin, RateMinNum, RateMinDen  *big.Int
-	OpenThreshold                    *big.Int
+	LevMax, Safety                  *big.Int
+	EpochLen                        int64
+	Incr                            bool
+	IncrPct                         *big.Int
+	IncrFund                        int64
+	FcPct                           *big.Int
+	FcFund                          int64
+	Pools, Closed                   []int64
+	Whitelisting                    bool
+	MaxOpen                         uint64
+	RowanColl                       bool
+	RateMin, RateMinNum, RateMinDen *big.Int
+	OpenThreshold                   *big.Int
 }
 type MarginState struct {
 	Balances   []Bal
